@@ -164,7 +164,7 @@ func init() {
 			s3b("tap=1", 25000, 800000),
 			s3b("tap=1,hold=1", 30000, 1000000),
 			s3b("tap=1,hold=1,pure=1", 20000, 600000),
-			s3root("", 1500, 60000),
+			s3root("", 4000, 120000),
 			s3root("tap=1", 2000, 80000),
 			s3root("tap=1,hold=1", 2000, 80000),
 			{Pkg: "scen/s2", Scen: "feed", Cfg: "", Module: "root", Seams: seamsS2, NoRace: true, Quick: 15000, Thorough: 1000000, ThoroughSecs: 900,
